@@ -129,6 +129,17 @@ fn main() {
             }
         }
     });
+    // wall-time cap: a run that does not end (an endless loop in the library outside C04's own watchdog, a stuck child)
+    // must end with a message rather than hang its caller.  VERIF_WALL_CAP_S overrides (quick 1800 s, thorough 6 h).
+    {
+        let cap: u64 = std::env::var("VERIF_WALL_CAP_S").ok().and_then(|s| s.parse().ok()).unwrap_or(if tier == Tier::Thorough { 6 * 3600 } else { 1800 });
+        let p = prop.to_string();
+        std::thread::spawn(move || {
+            std::thread::sleep(std::time::Duration::from_secs(cap));
+            println!("MACHINERY-ERROR {} did not finish within {} s; the run is abandoned (no verdict)", p, cap);
+            std::process::exit(2);
+        });
+    }
     let code = match prop {
         "C01" => c_docs::c01(tier),
         "C02" => c_docs::c02(tier),
